@@ -208,6 +208,10 @@ fn emit_nodes(cx: &mut Ctx, out: &mut String, nodes: &[Node], ind: usize) {
             Node::Ovr { o } => {
                 let _ = writeln!(out, "{pad}_ = {o};");
             }
+            Node::Access { g, how, .. } if how == "addr" => {
+                cx.tmp += 1;
+                let _ = writeln!(out, "{pad}let p_addr{} = &{g};", cx.tmp);
+            }
             Node::Access { g, how, with } => {
                 let gl = cx
                     .s
@@ -291,6 +295,20 @@ fn emit_nodes(cx: &mut Ctx, out: &mut String, nodes: &[Node], ind: usize) {
                             out,
                             "{pad}switch (0) {{\n{ipad}case 1, 2, 3: {{\n{inner}{ipad}}}\n{ipad}default: {{\n{ipad}}}\n{pad}}}\n"
                         );
+                    }
+                    "switch_after_default" => {
+                        let _ = write!(
+                            out,
+                            "{pad}switch (0) {{\n{ipad}default: {{\n{ipad}}}\n{ipad}case 1: {{\n{inner}{ipad}}}\n{ipad}case 2: {{\n{ipad}}}\n{pad}}}\n"
+                        );
+                    }
+                    "if_split" => {
+                        // the first statement in the accept arm, the others in the reject arm
+                        let mut first = String::new();
+                        let mut rest = String::new();
+                        emit_nodes(cx, &mut first, &items[..items.len().min(1)], ind + 1);
+                        emit_nodes(cx, &mut rest, &items[items.len().min(1)..], ind + 1);
+                        let _ = write!(out, "{pad}if (true) {{\n{first}{pad}}} else {{\n{rest}{pad}}}\n");
                     }
                     "switch_default" => {
                         let _ = write!(
